@@ -112,7 +112,9 @@ def render_bias(b, vs):
     elif k == "abmd":
         L = ["abmd {", "  name " + b["name"], "  colvars " + names, "  forceConstant " + fmt(b["k"]), "  stoppingValue " + fmt(b["c1"] + 5.0)]
     elif k == "alb":
-        L = ["alb {", "  name " + b["name"], "  colvars " + names, "  centers " + centers(b, vs), "  updateFrequency %d" % (2 * max(2, b["N"] // 2)),
+        # ALB updates its coupling from <x>/centre - 1: a zero centre is rejected by the library
+        cz = " ".join(c if float(c) != 0.0 else fmt(0.5 * vs[i]["grid"]["width"]) for c, i in zip(centers(b, vs).split(), b["vars"]))
+        L = ["alb {", "  name " + b["name"], "  colvars " + names, "  centers " + cz, "  updateFrequency %d" % (2 * max(2, b["N"] // 2)),
              "  forceRange 3.0"]
     elif k == "histogram":
         L = ["histogram {", "  name " + b["name"], "  colvars " + names]
